@@ -22,6 +22,19 @@ def _assert(cond, msg):
         raise ValueError(msg)
 
 
+def _complex_percentile(der, q):
+    """Percentiles along axis 0 of complex data ordered lexicographically (as np.sort does)."""
+    a = np.sort(der, axis=0)
+    n = a.shape[0]
+    out = []
+    for q_i in q:
+        pos = q_i / 100.0 * (n - 1)
+        lo = int(np.floor(pos))
+        hi = min(lo + 1, n - 1)
+        out.append(a[lo] + (a[hi] - a[lo]) * (pos - lo))
+    return out
+
+
 class CStepGenerator(MinStepGenerator):
 
     """
@@ -165,7 +178,9 @@ class _Limit(object):
         trimming factor is defined as a parameter.
         """
         try:
-            if np.any(np.isnan(der)):
+            if np.iscomplexobj(der):
+                p25, median, p75 = _complex_percentile(der, [25, 50, 75])
+            elif np.any(np.isnan(der)):
                 p25, median, p75 = np.nanpercentile(der, [25,50, 75], axis=0) 
             else:
                 p25, median, p75 = np.percentile(der, [25,50, 75], axis=0)
